@@ -175,9 +175,10 @@ inductive DOut where
   | block                      -- returns (nil, nil) without calling `next`
 deriving Repr, Inhabited
 
+/-- user code, keyed by response path (a resolver is invoked at most once per path) -/
 structure Oracle where
-  res : String → ROut
-  dir : String → String → DOut
+  res : Path → ROut
+  dir : Path → String → DOut
 
 inductive Out where
   | null
@@ -242,7 +243,7 @@ def runDirs (o : Oracle) (p : Path) : List String → St → Chain × St
   | [], st => (.reached, st)
   | d :: inner, st =>
     -- `d` is the outermost remaining directive
-    match o.dir (pathStr p) d with
+    match o.dir p d with
     | .missing => (.missing d, st)
     | .pass => runDirs o p inner (st.invoked p ("directive:" ++ d))
     | .err m => (.err m, st.invoked p ("directive:" ++ d))
@@ -300,7 +301,7 @@ def completeField (o : Oracle) (fi : FInfo) (sh : Shape) (p : Path) (st : St) : 
   | (.block, st1) =>
     (.null, if sh.nn && !st1.hasFieldError p then st1.addErr p mustNotBeNull else st1)
   | (.reached, st1) =>
-    match o.res (pathStr p) with
+    match o.res p with
     | .missing => (.null, { st1 with unlogged := st1.unlogged ++ [pathStr p] })
     | .err m => (.null, (st1.invoked p "resolver").addErr p m)
     | .panic m =>
